@@ -1144,7 +1144,7 @@ func GenC06(rng *rand.Rand, thorough bool, emit func(*Sx)) {
 			for _, lmtp := range []bool{false, true} {
 				// ---- DATA ----
 				if s == 0 || s >= 2 {
-					for ri, rs := range sizesPool {
+					for ri, rs := range append(append([][]int{}, sizesPool...), []int{ioCopyBuf}, []int{ioCopyBuf}) {
 						if !thorough && (li+si+ri)%2 != 0 {
 							continue
 						}
